@@ -57,6 +57,25 @@ func (p pd) bytes(x any) []byte {
 	return b
 }
 
+func (p pd) unmarshal(b []byte) any {
+	var x any
+	var err error
+	switch p.sig {
+	case sigLogs:
+		x, err = (&plog.ProtoUnmarshaler{}).UnmarshalLogs(b)
+	case sigTraces:
+		x, err = (&ptrace.ProtoUnmarshaler{}).UnmarshalTraces(b)
+	case sigProfiles:
+		x, err = (&pprofile.ProtoUnmarshaler{}).UnmarshalProfiles(b)
+	default:
+		x, err = (&pmetric.ProtoUnmarshaler{}).UnmarshalMetrics(b)
+	}
+	if err != nil {
+		panic(err)
+	}
+	return x
+}
+
 func (p pd) markReadOnly(x any) {
 	switch p.sig {
 	case sigLogs:
@@ -82,8 +101,184 @@ func (p pd) isReadOnly(x any) bool {
 	return x.(pmetric.Metrics).IsReadOnly()
 }
 
+// overwriteValue changes a value IN PLACE, keeping its type (what a processor that rewrites an attribute does).
+func overwriteValue(v pcommon.Value, w string, n int64) {
+	switch v.Type() {
+	case pcommon.ValueTypeStr:
+		v.SetStr(w)
+	case pcommon.ValueTypeInt:
+		v.SetInt(v.Int() + 1000 + n)
+	case pcommon.ValueTypeDouble:
+		v.SetDouble(v.Double() + 0.5 + float64(n))
+	case pcommon.ValueTypeBool:
+		v.SetBool(!v.Bool())
+	case pcommon.ValueTypeBytes:
+		if b := v.Bytes(); b.Len() > 0 {
+			b.SetAt(0, b.At(0)^0xff)
+		} else {
+			b.Append(byte(n) + 1)
+		}
+	case pcommon.ValueTypeMap:
+		overwriteMap(v.Map(), w, n)
+	case pcommon.ValueTypeSlice:
+		for i := 0; i < v.Slice().Len(); i++ {
+			overwriteValue(v.Slice().At(i), w, n)
+		}
+	}
+}
+
+func overwriteMap(m pcommon.Map, w string, n int64) {
+	m.Range(func(_ string, v pcommon.Value) bool {
+		overwriteValue(v, w, n)
+		return true
+	})
+}
+
+// mutateInPlace (program 4) overwrites every value it can reach without changing the structure, then leaves the
+// witness in a schema URL.
+func (p pd) mutateInPlace(x any, w string, n int64) {
+	switch p.sig {
+	case sigLogs:
+		ld := x.(plog.Logs)
+		for i := 0; i < ld.ResourceLogs().Len(); i++ {
+			rl := ld.ResourceLogs().At(i)
+			overwriteMap(rl.Resource().Attributes(), w, n)
+			for j := 0; j < rl.ScopeLogs().Len(); j++ {
+				sl := rl.ScopeLogs().At(j)
+				overwriteMap(sl.Scope().Attributes(), w, n)
+				for k := 0; k < sl.LogRecords().Len(); k++ {
+					lr := sl.LogRecords().At(k)
+					overwriteMap(lr.Attributes(), w, n)
+					overwriteValue(lr.Body(), w, n)
+					lr.SetTimestamp(lr.Timestamp() + pcommon.Timestamp(1+n))
+					lr.SetSeverityNumber(lr.SeverityNumber() + 1)
+				}
+			}
+		}
+		if ld.ResourceLogs().Len() > 0 {
+			ld.ResourceLogs().At(0).SetSchemaUrl(w)
+		} else {
+			ld.ResourceLogs().AppendEmpty().SetSchemaUrl(w)
+		}
+	case sigTraces:
+		td := x.(ptrace.Traces)
+		for i := 0; i < td.ResourceSpans().Len(); i++ {
+			rs := td.ResourceSpans().At(i)
+			overwriteMap(rs.Resource().Attributes(), w, n)
+			for j := 0; j < rs.ScopeSpans().Len(); j++ {
+				ss := rs.ScopeSpans().At(j)
+				overwriteMap(ss.Scope().Attributes(), w, n)
+				for k := 0; k < ss.Spans().Len(); k++ {
+					sp := ss.Spans().At(k)
+					overwriteMap(sp.Attributes(), w, n)
+					sp.SetStartTimestamp(sp.StartTimestamp() + pcommon.Timestamp(1+n))
+					sp.SetKind(sp.Kind() + 1)
+					for e := 0; e < sp.Events().Len(); e++ {
+						overwriteMap(sp.Events().At(e).Attributes(), w, n)
+						sp.Events().At(e).SetName(w)
+					}
+				}
+			}
+		}
+		if td.ResourceSpans().Len() > 0 {
+			td.ResourceSpans().At(0).SetSchemaUrl(w)
+		} else {
+			td.ResourceSpans().AppendEmpty().SetSchemaUrl(w)
+		}
+	case sigProfiles:
+		pf := x.(pprofile.Profiles)
+		for i := 0; i < pf.ResourceProfiles().Len(); i++ {
+			rp := pf.ResourceProfiles().At(i)
+			overwriteMap(rp.Resource().Attributes(), w, n)
+			for j := 0; j < rp.ScopeProfiles().Len(); j++ {
+				sp := rp.ScopeProfiles().At(j)
+				overwriteMap(sp.Scope().Attributes(), w, n)
+				for k := 0; k < sp.Profiles().Len(); k++ {
+					pr := sp.Profiles().At(k)
+					pr.SetPeriod(pr.Period() + 1 + n)
+					for q := 0; q < pr.Sample().Len(); q++ {
+						if vs := pr.Sample().At(q).Value(); vs.Len() > 1 {
+							vs.SetAt(1, vs.At(1)+1000+n) // (the first value is the item id of the generator)
+						}
+					}
+				}
+			}
+		}
+		if pf.ResourceProfiles().Len() > 0 {
+			pf.ResourceProfiles().At(0).SetSchemaUrl(w)
+		} else {
+			pf.ResourceProfiles().AppendEmpty().SetSchemaUrl(w)
+		}
+	default:
+		md := x.(pmetric.Metrics)
+		num := func(dps pmetric.NumberDataPointSlice) {
+			for q := 0; q < dps.Len(); q++ {
+				dp := dps.At(q)
+				overwriteMap(dp.Attributes(), w, n)
+				switch dp.ValueType() {
+				case pmetric.NumberDataPointValueTypeInt:
+					dp.SetIntValue(dp.IntValue() + 1000 + n)
+				case pmetric.NumberDataPointValueTypeDouble:
+					dp.SetDoubleValue(dp.DoubleValue() + 0.5 + float64(n))
+				}
+				dp.SetTimestamp(dp.Timestamp() + pcommon.Timestamp(1+n))
+			}
+		}
+		for i := 0; i < md.ResourceMetrics().Len(); i++ {
+			rm := md.ResourceMetrics().At(i)
+			overwriteMap(rm.Resource().Attributes(), w, n)
+			for j := 0; j < rm.ScopeMetrics().Len(); j++ {
+				sm := rm.ScopeMetrics().At(j)
+				overwriteMap(sm.Scope().Attributes(), w, n)
+				for k := 0; k < sm.Metrics().Len(); k++ {
+					m := sm.Metrics().At(k)
+					overwriteMap(m.Metadata(), w, n)
+					switch m.Type() {
+					case pmetric.MetricTypeGauge:
+						num(m.Gauge().DataPoints())
+					case pmetric.MetricTypeSum:
+						num(m.Sum().DataPoints())
+					case pmetric.MetricTypeHistogram:
+						for q := 0; q < m.Histogram().DataPoints().Len(); q++ {
+							dp := m.Histogram().DataPoints().At(q)
+							overwriteMap(dp.Attributes(), w, n)
+							dp.SetCount(dp.Count() + uint64(1+n))
+							if bc := dp.BucketCounts(); bc.Len() > 0 {
+								bc.SetAt(0, bc.At(0)+uint64(1+n))
+							}
+						}
+					case pmetric.MetricTypeExponentialHistogram:
+						for q := 0; q < m.ExponentialHistogram().DataPoints().Len(); q++ {
+							dp := m.ExponentialHistogram().DataPoints().At(q)
+							overwriteMap(dp.Attributes(), w, n)
+							dp.SetCount(dp.Count() + uint64(1+n))
+						}
+					case pmetric.MetricTypeSummary:
+						for q := 0; q < m.Summary().DataPoints().Len(); q++ {
+							dp := m.Summary().DataPoints().At(q)
+							overwriteMap(dp.Attributes(), w, n)
+							dp.SetCount(dp.Count() + uint64(1+n))
+						}
+					}
+				}
+			}
+		}
+		if md.ResourceMetrics().Len() > 0 {
+			md.ResourceMetrics().At(0).SetSchemaUrl(w)
+		} else {
+			md.ResourceMetrics().AppendEmpty().SetSchemaUrl(w)
+		}
+	}
+}
+
 // mutate applies mutation program `kind` leaving the witness string somewhere in the payload.
 func (p pd) mutate(x any, witness string, kind int) {
+	if kind == 4 {
+		var n int64
+		_, _ = fmt.Sscanf(witness, "WITNESS-%d", &n)
+		p.mutateInPlace(x, witness, n)
+		return
+	}
 	switch p.sig {
 	case sigLogs:
 		ld := x.(plog.Logs)
@@ -221,6 +416,8 @@ type c06Consumer struct {
 	atCall   []byte
 	panicked bool
 	err      error
+	// the declared mutation itself panicked (reported)
+	panickedDeclared bool
 }
 
 type c06Cfg struct {
@@ -241,7 +438,7 @@ func runC06(r *simkit.Run) {
 	var desc []string
 	nRO := 0
 	for i := range cs {
-		c := &c06Consumer{n: i, mutates: tp.Chance(1, 2), fail: tp.Chance(1, 5), mutKind: tp.Draw(4)}
+		c := &c06Consumer{n: i, mutates: tp.Chance(1, 2), fail: tp.Chance(1, 5), mutKind: tp.Draw(5)}
 		if c.mutates {
 			c.async = tp.Chance(1, 2)
 		} else {
@@ -294,6 +491,7 @@ func runC06(r *simkit.Run) {
 		declared := func() {
 			defer func() {
 				if e := recover(); e != nil {
+					c.panickedDeclared = true
 					r.Failf("isolation", "declared-mutator-got-read-only-data", "consumer %d (%s) declares MutatesData but its mutation panicked: %v", c.n, desc[c.n], e)
 				}
 			}()
@@ -411,6 +609,15 @@ func runC06(r *simkit.Run) {
 				r.Failf("readonly", "undeclared-mutation-changed-data", "the undeclared mutation of consumer %d changed shared data", c.n)
 			}
 		}
+		// a declared mutator works on data no one else can see: what it holds after everybody is done is what its own
+		// program makes of the payload that was sent, nothing more
+		if c.mutates && !c.panickedDeclared {
+			exp := p.unmarshal(sent)
+			p.mutate(exp, fmt.Sprintf("WITNESS-%d", c.n), c.mutKind)
+			if !bytes.Equal(p.bytes(exp), now) {
+				r.Failf("isolation", "mutator-data-not-private", "consumer %d (%s) holds data that differs from what its own mutation makes of the payload sent (%d vs %d bytes): somebody else can reach its copy", c.n, desc[c.n], len(now), len(p.bytes(exp)))
+			}
+		}
 		// nobody else's witness may be reachable from this consumer's data
 		for _, o := range cs {
 			if o.n != c.n && bytes.Contains(now, []byte(fmt.Sprintf("WITNESS-%d", o.n))) {
@@ -436,5 +643,5 @@ var HarnessC06 = simkit.Harness{
 	Prop: "C06", Name: "svc/c06", Run: runC06, StepTimeout: 20e9, HashInsensitive: true,
 	Real: append([]string{"internal/fanoutconsumer (logs, traces, metrics, profiles)", "pdata read-only state and deep copy", "service/internal/capabilityconsumer and the graph's capabilities / fan-out nodes (graph mode)"}, svcReal...),
 	Stub: append([]string{"consumers with a declared capability, an injected failure and a mutation program run during the call, as a later task, or undeclared"}, svcStub...),
-	Rule: "one run = direct mode: a fan-out over 1-5 simulated consumers with a tape-drawn capability vector, read-only or mutable generated input, per-consumer failure and mutation program (4 kinds; synchronous, as a later task in tape order, or undeclared by a non-mutating consumer); or graph mode: a generated service topology (as C09) whose mutating processors and mutating exporters really mutate, with delivery trails and each pipeline's advertised capability compared with the configuration; distinct = distinct event-log hash; non-trivial = more than one consumer or an asynchronous mutation / a payload with >1 delivery.",
+	Rule: "one run = direct mode: a fan-out over 1-5 simulated consumers with a tape-drawn capability vector, read-only or mutable generated input, per-consumer failure and mutation program (5 kinds, one of which overwrites every reachable value in place keeping its type; synchronous, as a later task in tape order, or undeclared by a non-mutating consumer); or graph mode: a generated service topology (as C09) whose mutating processors and mutating exporters really mutate, with delivery trails and each pipeline's advertised capability compared with the configuration; distinct = distinct event-log hash; non-trivial = more than one consumer or an asynchronous mutation / a payload with >1 delivery.",
 }
